@@ -16,8 +16,9 @@ usage: tools/mutate.py [--files connection.rs,server.rs] [--limit N] [--start K]
 """
 import json, os, re, subprocess, sys, time
 
-REPO = "/repo"
-OUT = "/verif/mutation"
+REPO = os.environ.get("REPO_ROOT", "/repo")
+VERIF = os.environ.get("VERIF_ROOT", "/verif")
+OUT = VERIF + "/mutation"
 ENV = dict(os.environ, CARGO_NET_OFFLINE="true")
 
 CHECKS = {
@@ -140,7 +141,7 @@ def main():
                 rec["checks"] = []
                 for pid in CHECKS[path]:
                     try:
-                        rc2, out2 = sh(["./check", pid, "--tier", "quick"], cwd="/verif", timeout=900)
+                        rc2, out2 = sh(["./check", pid, "--tier", "quick"], cwd=VERIF, timeout=900)
                     except subprocess.TimeoutExpired:
                         rc2, out2 = 1, f"VIOLATION property={pid} (check timed out)"
                     viol = [l for l in out2.split("\n") if l.startswith("VIOLATION")]
@@ -154,7 +155,7 @@ def main():
             summary[rec["status"]] += 1
             res.write(json.dumps(rec) + "\n"); res.flush()
             subprocess.run(["git", "checkout", "--", "."], cwd=REPO)
-            subprocess.run(["rm", "-rf", "/verif/replays"])
+            subprocess.run(["rm", "-rf", VERIF + "/replays"])
             print(f"#{n} {path}:{i+1} [{what}] -> {rec['status']}" + (f" by {rec.get('caught_by')}" if rec["status"] == "caught" else ""), flush=True)
         open(os.path.join(REPO, path), "w").write(orig)
     print("SUMMARY", json.dumps(summary))
